@@ -440,6 +440,23 @@ def main():
                 lost.append('theorem %s depends on non-allow-listed assumptions %s' % (t, bad))
             else:
                 discharged += 1
+    # thorough tier: independent re-check of the compiled library closure with coqchk
+    coqchk_report = None
+    if tier == 'thorough' and rc == 0 and not replay and os.environ.get('VERIF_NO_COQCHK') != '1':
+        mods = ['V.Props.%s' % pid] + ['V.Props.%s' % e for e in extra_props]
+        rc2, out2 = sh(['coqchk', '-o', '-silent', '-Q', COQ, 'V'] + mods, cwd=COQ, timeout=3000)
+        axl = []
+        m = re.search(r'\* Axioms:(.*?)\n\s*\n\* Constants/Inductives relying on type-in-type:(.*?)\n\s*\n\* Constants/Inductives relying on unsafe \(co\)fixpoints:(.*?)\n\s*\n\* Inductives whose positivity is assumed:(.*?)\n', out2 + '\n\n', re.S)
+        if rc2 != 0 or not m:
+            lost.append('coqchk failed on %s: %s' % (mods, out2[-400:]))
+        else:
+            axl = [a.strip() for a in m.group(1).replace('<none>', '').split('\n') if a.strip()]
+            unsafe = [g.strip() for g in (m.group(2), m.group(3), m.group(4)) if g.strip() and g.strip() != '<none>']
+            bad = [a for a in axl if not a.split(' ')[0].startswith(PRIMITIVE_PREFIXES + ('Coq.Numbers.Cyclic.Int63', 'Bignums.', 'Coq.Floats'))
+                   and a.split(' ')[0] not in GLOBAL_AXIOM_ALLOW and a.split(' ')[0] not in set(getattr(prop, 'AXIOM_ALLOW', []))]
+            if bad or unsafe:
+                lost.append('coqchk reports assumptions outside the allow-list: %s %s' % (bad[:5], unsafe[:3]))
+            coqchk_report = {'modules': mods, 'axioms': axl or ['<none>'], 'unsafe': unsafe or ['<none>']}
     hits = forbidden_scan()
     if hits:
         lost.append('forbidden constructs in the development: ' + '; '.join(hits[:5]))
@@ -624,6 +641,7 @@ def main():
             'class_histogram': classes, 'op_histogram': opsh,
             'known_findings_hit': sorted({f['id'] for f, _ in known_hits}),
             'lost_obligations_or_correspondences': lost,
+            'coqchk': coqchk_report if coqchk_report else 'thorough tier only',
             'notes': notes,
         },
         'assumptions': list(getattr(prop, 'ASSUMPTIONS', [])),
